@@ -2276,6 +2276,10 @@ def _verify_dominances_hyperparameters(dominances, dominance_type,
       raise ValueError("%s dominance constraint dimensions must be integers. "
                        "Seeing dominant_dim %s and weak_dim %s" %
                        (dominance_type.capitalize(), dominant_dim, weak_dim))
+    if dominant_dim == weak_dim:
+      raise ValueError("%s dominance constraint must be between two different "
+                       "dimensions. Seeing dimension %d twice." %
+                       (dominance_type.capitalize(), dominant_dim))
     for dim in [dominant_dim, weak_dim]:
       if monotonicities[dim] != 1:
         raise ValueError("%s dominance constraint's dimensions must be "
@@ -2439,6 +2443,10 @@ def verify_hyperparameters(lattice_sizes,
       if not isinstance(dim1, int) or not isinstance(dim2, int):
         raise ValueError("Joint monotonicity constraint dimensions must be "
                          "integers. Seeing dimensions %s, %s" % (dim1, dim2))
+      if dim1 == dim2:
+        raise ValueError("Joint monotonicity constraint must be between two "
+                         "different dimensions. Seeing dimension %d twice." %
+                         dim1)
 
   if joint_unimodalities is not None:
     for single_constraint in joint_unimodalities:
